@@ -206,11 +206,12 @@ Section InitOk.
   Variable V : variant.
   Variable R : registry.
   Variable clean : cleaner.
+  Variable strictext : bool.
   Hypothesis Hclean : forall io n v, ok V (clean io n v).
 
-  Lemma ok_scan_entries : forall m tl unreg, ok V (scan_entries V R m tl unreg).
+  Lemma ok_scan_entries : forall hasext m tl unreg, ok V (scan_entries V R strictext hasext m tl unreg).
   Proof.
-    induction m as [|[k e] r IH]; intros; simpl; [apply ok_ret|].
+    intros hasext. induction m as [|[k e] r IH]; intros; simpl; [apply ok_ret|].
     destruct e; try (apply ok_guard; apply IH).
     destruct (match jlookup (us "extension_type") m with Some t => str_is t (us "toplevel-property-extension") | None => false end);
       [|apply IH].
@@ -218,7 +219,7 @@ Section InitOk.
     destruct (x_toplevel x); [apply IH|apply ok_guard; apply IH].
   Qed.
 
-  Lemma ok_ext_scan : forall ext, ok V (ext_scan V R ext).
+  Lemma ok_ext_scan : forall hasext ext, ok V (ext_scan V R strictext hasext ext).
   Proof.
     intros. unfold ext_scan. destruct ext as [e|]; [|apply ok_ret].
     destruct (negb (truthy e)); [apply ok_ret|].
@@ -264,7 +265,7 @@ Section InitOk.
     apply ok_seq; [apply ok_cons_one; exact Hh|apply IH; exact Hr].
   Qed.
 
-  Lemma ok_base_init : forall c ac io kw vr, forallb cons_known (c_cons c) = true -> ok V (base_init V R clean c ac io kw vr).
+  Lemma ok_base_init : forall c ac io kw vr, forallb cons_known (c_cons c) = true -> ok V (base_init V R clean strictext c ac io kw vr).
   Proof.
     intros c ac io kw vr Hk. unfold base_init.
     apply ok_bind.
@@ -294,6 +295,7 @@ Section ParseOk.
   Variable V : variant.
   Variable R : registry.
   Variable clean : cleaner.
+  Variable strictext : bool.
   Variable refuse : bool.
   Hypothesis Hclean : forall io n v, ok V (clean io n v).
   Hypothesis HR : reg_known R = true.
@@ -310,7 +312,7 @@ Section ParseOk.
   Lemma ok_call_check : forall kw nonstr, ok V (call_check kw nonstr).
   Proof. intros. unfold call_check. repeat okstep. Qed.
 
-  Lemma ok_construct0 : forall c ac io kw, cls_known c = true -> ok V (construct0 V R clean c ac io kw).
+  Lemma ok_construct0 : forall c ac io kw, cls_known c = true -> ok V (construct0 V R clean strictext c ac io kw).
   Proof.
     intros c ac io kw Hc. unfold cls_known in Hc. apply andb_true_iff in Hc. destruct Hc as [Hp Hk].
     unfold construct0. cbv zeta. rewrite Hp. simpl negb. cbv iota.
@@ -318,7 +320,7 @@ Section ParseOk.
     repeat okstep.
   Qed.
 
-  Lemma ok_marking_pre : forall dec v20 kw, ok V (marking_pre V R clean dec v20 kw).
+  Lemma ok_marking_pre : forall dec v20 kw, ok V (marking_pre V R clean strictext dec v20 kw).
   Proof.
     intros. unfold marking_pre.
     destruct (jlookup (us "definition_type") kw) as [dt|]; [|apply ok_ret].
@@ -344,7 +346,7 @@ Section ParseOk.
     rewrite Hr, Hc2. reflexivity.
   Qed.
 
-  Lemma ok_construct : forall dec c ac io kw, cls_known c = true -> ok V (construct V R clean dec c ac io kw).
+  Lemma ok_construct : forall dec c ac io kw, cls_known c = true -> ok V (construct V R clean strictext dec c ac io kw).
   Proof.
     intros dec c ac io kw Hc. unfold construct.
     destruct (c_pre c) as [|p rest] eqn:Hp; [apply ok_construct0; exact Hc|].
@@ -397,7 +399,7 @@ Section ParseOk.
   Lemma ok_refuse_custom : forall c ac kw, ok V (refuse_custom refuse c ac kw).
   Proof. intros. unfold refuse_custom. repeat okstep. Qed.
 
-  Lemma ok_dict_to_stix2 : forall dec d nonstr ac io version, ok V (dict_to_stix2 V R clean refuse dec d nonstr ac io version).
+  Lemma ok_dict_to_stix2 : forall dec d nonstr ac io version, ok V (dict_to_stix2 V R clean strictext refuse dec d nonstr ac io version).
   Proof.
     intros. unfold dict_to_stix2.
     apply ok_bind; [apply ok_py_in|intros has].
@@ -423,13 +425,13 @@ Section ParseOk.
       apply ok_bind; [apply ok_d2s_scan|intros b]. destruct b; [apply ok_ret|apply ok_fail; reflexivity].
   Qed.
 
-  Lemma ok_parse : forall dec x ac io version, ok V (parse V R clean refuse dec x ac io version).
+  Lemma ok_parse : forall dec x ac io version, ok V (parse V R clean strictext refuse dec x ac io version).
   Proof. intros. unfold parse. apply ok_bind; [apply ok_get_dict|intros; apply ok_dict_to_stix2]. Qed.
 
-  Lemma ok_parse_file : forall dec tr ac io version, ok V (parse_file V R clean refuse dec tr ac io version).
+  Lemma ok_parse_file : forall dec tr ac io version, ok V (parse_file V R clean strictext refuse dec tr ac io version).
   Proof. intros. unfold parse_file. apply ok_bind; [unfold decode_text; repeat okstep|intros; apply ok_dict_to_stix2]. Qed.
 
-  Lemma ok_parse_observable : forall dec x vr ac io version, ok V (parse_observable V R clean refuse dec x vr ac io version).
+  Lemma ok_parse_observable : forall dec x vr ac io version, ok V (parse_observable V R clean strictext refuse dec x vr ac io version).
   Proof.
     intros. unfold parse_observable.
     apply ok_bind; [apply ok_get_dict|intros d].
@@ -485,13 +487,14 @@ Section StoreFacts.
   Variable V : variant.
   Variable R : registry.
   Variable clean : cleaner.
+  Variable strictext : bool.
   Variable refuse : bool.
   Variable dec : decoder.
 
   Lemma store_add_one_cases : forall st x version st' a,
-    In (st', a) (store_add_one V R clean refuse dec st x version) ->
-    (a = Added /\ st' = (st ++ [x])%list /\ exists p, In (Val p) (parse V R clean refuse dec x true false version)) \/
-    (exists e s, a = Escaped e s /\ st' = st /\ In (Exc e s) (parse V R clean refuse dec x true false version)).
+    In (st', a) (store_add_one V R clean strictext refuse dec st x version) ->
+    (a = Added /\ st' = (st ++ [x])%list /\ exists p, In (Val p) (parse V R clean strictext refuse dec x true false version)) \/
+    (exists e s, a = Escaped e s /\ st' = st /\ In (Exc e s) (parse V R clean strictext refuse dec x true false version)).
   Proof.
     intros st x version st' a Hin. unfold store_add_one in Hin. apply in_map_iff in Hin.
     destruct Hin as [r [Hr Hin]]. destruct r as [p|e s]; inversion Hr; subst.
@@ -500,12 +503,12 @@ Section StoreFacts.
   Qed.
 
   Lemma store_add_list_prefix : forall xs st version st' a,
-    In (st', a) (store_add_list V R clean refuse dec st xs version) ->
+    In (st', a) (store_add_list V R clean strictext refuse dec st xs version) ->
     exists k, (k <= List.length xs)%nat /\ st' = (st ++ firstn k xs)%list /\
-              Forall (fun x => exists p, In (Val p) (parse V R clean refuse dec x true false version)) (firstn k xs) /\
+              Forall (fun x => exists p, In (Val p) (parse V R clean strictext refuse dec x true false version)) (firstn k xs) /\
               match a with
               | Added => k = List.length xs
-              | Escaped e s => exists x, nth_error xs k = Some x /\ In (Exc e s) (parse V R clean refuse dec x true false version)
+              | Escaped e s => exists x, nth_error xs k = Some x /\ In (Exc e s) (parse V R clean strictext refuse dec x true false version)
               end.
   Proof.
     induction xs as [|x r IH]; intros st version st' a Hin; simpl in Hin.
